@@ -203,7 +203,10 @@ def check_C10(run):
     common_assumptions(run)
     enum_pipeline(run, "C10", observe=True)
     trees_pipeline(run, "C10", observe=True)
-    res, _, _ = stage_texts(run, deep_malformed_texts() + depth_sweep_texts(), observe=True, name="deep_malformed")
+    # ... and longer value lists.  With a default field a list is a nested OR chain, which TLC's JSON reader follows to 255 levels only, and
+    # the recorder needs minutes for 65536 values: parameter-count thresholds (255, 32767, 65535) are therefore NOT explored
+    big = ["id:(" + " OR ".join(str(i) for i in range(n)) + ")" for n in (50, 100, 200)]
+    res, _, _ = stage_texts(run, deep_malformed_texts() + depth_sweep_texts() + big, observe=True, name="deep_malformed")
     stage_judge_enum(run, res, "C10", name="judge_deep_malformed")
     # byte level: arbitrary symbol sequences (NUL, invalid UTF-8, quotes ...) through Parse and both renderers
     import lexfam
